@@ -111,6 +111,52 @@ def case_job(arg):
     return rep
 
 
+def late_accept_job(arg):
+    """One process: evaluate while the leaf is NOT accepted, then accept it, evaluate, edit the leaf, evaluate."""
+    idx, depth, form, edit = arg
+    rep = core.Report("C14")
+    rep.evaluations = 1
+    R = "la%d" % idx
+    kw0 = dict(leaf_const=7, leaf_var=3, na_const=5, na_var=1)
+    kw1 = dict(kw0)
+    kw1[edit] += 10
+    f0, leafmod = files_for(R, depth, form, **kw0)
+    f1, _ = files_for(R, depth, form, **kw1)
+    comps = leafmod.split(".")
+    late = ".".join(comps[: max(2, len(comps) - 1)]) if len(comps) > 2 else leafmod
+    ent = {"style": "eval", "module": R + ".top", "func": "main", "args_src": "()"}
+    mods = [leafmod, R + "_na", R + ".top"]
+    case = {"late_accept": True, "idx": idx, "depth": depth, "form": form, "edit": edit, "late_name": late}
+    with core.Scratch("vp_c14l_") as td:
+        root = os.path.join(td, "code")
+        os.makedirs(root)
+        seg = {"mode": "impl", "root": root, "accept": [R + ".top"], "store": {"kind": "local", "dir": os.path.join(td, "store")},
+               "steps": [{"write": f0, "how": "import", "modules": mods, "entry": ent},
+                         {"how": "none", "accept_after": [late], "entry": ent},
+                         {"write": f1, "how": "reload", "modules": mods, "entry": ent}]}
+        o = core.fork_call(run_segment, seg, timeout=300)
+    if isinstance(o, core.JobFailed):
+        rep.inconclusive.append("worker: %r" % (o,))
+        return rep
+    st = o["steps"]
+    for x in st:
+        if "setup_error" in x:
+            rep.inconclusive.append(x["setup_error"][-300:])
+            return rep
+        if x["result"][0] != "ok":
+            rep.violate("late accept of %s: evaluation raised %s(%s)" % (late, x["result"][1], x["result"][2][:200]), case, mechanism="late-accept-evaluation-raised")
+            return rep
+    sa, sb = dict(st[1]["syncs"][-1]), dict(st[2]["syncs"][-1])
+    rep.count("late_accept_cases")
+    if sa == sb:
+        rep.violate("leaf module %s accepted (as %s) after a first evaluation in the same process: editing %s did not change any signature" % (leafmod, late, edit), case, mechanism="late-accept-not-effective")
+    elif pickle.loads(st[2]["result"][1]) != expected(**kw1):
+        rep.violate("late accept of %s: value after the edit is %s" % (late, st[2]["result"][2][:120]), case, mechanism="late-accept-not-effective")
+    else:
+        rep.nontriv(("c14late", depth, form, edit))
+    return rep
+
+
 def refused_job(arg):
     idx, depth, n_other = arg
     rep = core.Report("C14")
@@ -152,6 +198,21 @@ def refused_job(arg):
             rep.violate("data function in non-accepted module %s ran (%s)" % (mod, style), case, mechanism="non-accepted-data-function-evaluated")
         if o["stored"] or o["sync_begun"]:
             rep.violate("refused data function in %s wrote to the store" % mod, case, mechanism="non-accepted-data-function-evaluated")
+    # the error tells the user to accept the module: doing so in the same process must make the call work
+    with core.Scratch("vp_c14r2_") as td:
+        root = os.path.join(td, "code")
+        os.makedirs(root)
+        ent = {"style": "call", "module": mod, "func": "nd", "args_src": "()"}
+        seg = {"mode": "impl", "root": root, "accept": accept, "store": {"kind": "local", "dir": os.path.join(td, "store")},
+               "steps": [{"write": files, "how": "import", "modules": [mod], "entry": ent}, {"how": "none", "accept_after": [R], "entry": ent}]}
+        o = core.fork_call(run_segment, seg, timeout=300)
+    if isinstance(o, core.JobFailed):
+        rep.inconclusive.append("worker: %r" % (o,))
+    else:
+        r2 = o["steps"][1].get("result")
+        rep.count("refused_then_accepted")
+        if not r2 or r2[0] != "ok" or pickle.loads(r2[1]) != 1:
+            rep.violate("data function of %s is still refused / wrong after dds.accept_module(%r) in the same process: %r" % (mod, R, r2 and r2[1:3]), case, mechanism="late-accept-not-effective")
     rep.nontriv(("c14r", depth, n_other))
     return rep
 
@@ -162,7 +223,7 @@ def run(tier, seed):
     rep.rule = (
         "leaf module at depth 1-6 below a unique root package; accepted name = every dotted prefix of the leaf module (and the full module name), or nothing but the caller module (control); total number of accepted "
         "names in {1,2,3,5,10,40} padded with unrelated names registered before or after; 3 import forms from the caller; edits: leaf function body, leaf variable, function and variable of a non-accepted sibling package. "
-        "Two fresh processes per case (before / after the edit). Data functions in non-accepted modules at depth 1-4 with 0/3/40 other accepted names, called directly and through eval. "
+        "Two fresh processes per case (before / after the edit); plus late acceptance: one process evaluates while the leaf is not accepted, then calls accept_module and must see the leaf tracked from then on. Data functions in non-accepted modules at depth 1-4 with 0/3/40 other accepted names, called directly and through eval. "
         "distinct_nontrivial = distinct (depth, accepted prefix length, accept-set size, padding order, import form, edit) cases decided."
     )
     jobs = []
@@ -189,8 +250,14 @@ def run(tier, seed):
             idx += 1
             jobs.append(("refused", (idx, depth, n_other)))
 
+    for depth in (1, 2, 3, 4, 5):
+        for form in FORMS:
+            for edit in ("leaf_const", "leaf_var"):
+                idx += 1
+                jobs.append(("late", (idx, depth, form, edit)))
+
     def dispatch(j):
-        return {"case": case_job, "refused": refused_job}[j[0]](j[1])
+        return {"case": case_job, "refused": refused_job, "late": late_accept_job}[j[0]](j[1])
 
     results = core.fork_map(dispatch, jobs, timeout=900)
     for j, r in zip(jobs, results):
@@ -211,7 +278,9 @@ def run(tier, seed):
 def replay(payload):
     rep = core.Report("C14")
     c = payload["case"]
-    if c.get("refused"):
+    if c.get("late_accept"):
+        rep.merge(late_accept_job((c["idx"], c["depth"], c["form"], c["edit"])))
+    elif c.get("refused"):
         rep.merge(refused_job((c["idx"], c["depth"], c["n_other"])))
     else:
         am = [n for n in c["accept"] if not n.endswith(".top")]
